@@ -26,7 +26,7 @@ namespace SpsdkVerif.Sb2
 open SpsdkVerif
 open SpsdkVerif.Misc (Bytes beEnc beDec leEnc leDec bitLen)
 open SpsdkVerif.Crypto (CryptoOps HashAlg xorBytes zeroPad16 zeros hmac kwWrap kwUnwrap)
-open SpsdkVerif.Generated (Sb2Consts)
+open SpsdkVerif.Generated
 
 def u8 (n : Nat) : UInt8 := UInt8.ofNat n
 
@@ -239,7 +239,6 @@ def decodeCmd (d : Bytes) : PyRes (Cmd × Nat) :=
 def Cmd.canon : Cmd → Cmd
   | .load a d m f => .load a (zeroPad16 d) (memIdOfFlags (f ||| withMemFlags 0 m)) (f ||| withMemFlags 0 m)
   | .fill a p l => .fill a (fillWordT p) (if l = 0 then 4 else l)
-  | .jump a arg sp => .jump a arg (match sp with | some v => some v | none => none)
   | .erase a l f m => .erase a l (withMemFlags f m) (memIdOfFlags (withMemFlags f m))
   | .memEnable a s m => .memEnable a s (memIdOfFlags (withMemFlags 0 m))
   | .prog a m w1 w2 f => .prog a ((progFlags m w2 f &&& Sb2Consts.romDeviceIdMask) >>> Sb2Consts.romDeviceIdShift) w1 w2 (progFlags m w2 f)
@@ -461,8 +460,8 @@ def buildV20 (c : CryptoOps) (cfg : Cfg) (signed : Bool) : Bytes :=
 
 namespace Rom
 
-/-- the file format as the loader knows it (hand-written; `Properties/C04.lean` proves that the
-    constants generated from SPSDK's sources agree) -/
+/-! The file format as the loader knows it (hand-written; `Properties/C04.lean` proves that the
+    constants generated from SPSDK's sources agree). -/
 namespace Spec
 def tagNop : Nat := 0
 def tagTag : Nat := 1
@@ -572,7 +571,8 @@ def readHdr (d : Bytes) : Except RomErr RawHdr :=
     else .ok ⟨leDec tg, leDec fl, leDec ad, leDec ct, leDec dt⟩
   | _ => .error .truncated
 
-def crc32Mpeg (d : Bytes) : Nat := Crypto.Crc.crc Crypto.Crc.crc32Mpeg2 d
+/-- CRC-32/MPEG-2 as a 32-bit value (`% 2^32` is the identity on the 32-bit register) -/
+def crc32Mpeg (d : Bytes) : Nat := Crypto.Crc.crc Crypto.Crc.crc32Mpeg2 d % 2 ^ 32
 
 /-- one command at the head of the (decrypted) stream: the action and the number of bytes consumed -/
 def readCmd (d : Bytes) : Except RomErr (RomCmd × Nat) :=
@@ -778,7 +778,7 @@ def romV21 (c : CryptoOps) (kek file : Bytes) : Except RomErr Content :=
             .error .badLayout
           else if sha && (slice file (signedLen - Spec.shaSize) Spec.shaSize != c.hash .sha256 (slice file start (stop - start))) then
             .error .badSha
-          else match readSections c dek mac nonceOf file stop (file.length / 16 + 1) start with
+          else match readSections c dek mac h.nonce file stop (file.length / 16 + 1) start with
             | .error e => .error e
             | .ok ss =>
               match ss with
@@ -788,7 +788,55 @@ def romV21 (c : CryptoOps) (kek file : Bytes) : Except RomErr Content :=
                   .error .badHeaderMac
                 else if s0.uid ≠ h.firstBootSectionId then .error .badLayout
                 else .ok (mkContent h dek mac ss signedLen (slice file signedLen (start - signedLen)) (slice file h.offsetToCert certLen))
-where nonceOf := h.nonce
+
+/-- SB 2.0: header ‖ HMAC(header) ‖ key blob ‖ [certificate section] ‖ boot sections ‖ [signature].
+    `flags = 0x08`: signed (certificate section present, signature over everything before it);
+    `flags = 0x04`: encrypted only. -/
+def romV20 (c : CryptoOps) (kek file : Bytes) : Except RomErr Content :=
+  match readImageHdr file with
+  | .error e => .error e
+  | .ok h =>
+    if h.major ≠ 2 ∨ h.minor ≠ 0 then .error .badVersion
+    else if h.headerBlocks * 16 ≠ Spec.imageHeaderSize then .error .badLayout
+    else match readKeys c kek file h with
+      | .error e => .error e
+      | .ok (dek, mac) =>
+        if slice file Spec.imageHeaderSize Spec.macSize ≠ hmac c .sha256 mac (file.take Spec.imageHeaderSize) then .error .badHeaderMac
+        else
+          let pos0 := (h.keyBlobBlock + h.keyBlobBlockCount) * 16
+          let start := h.firstBootTagBlock * 16
+          let stop := h.imageBlocks * 16
+          let finish (cert : Bytes) : Except RomErr Content :=
+            match readSections c dek mac h.nonce file stop (file.length / 16 + 1) start with
+            | .error e => .error e
+            | .ok ss =>
+              match ss with
+              | [] => .error .badLayout
+              | s0 :: _ =>
+                if s0.uid ≠ h.firstBootSectionId then .error .badLayout
+                else .ok (mkContent h dek mac ss stop (file.drop stop) cert)
+          if stop < start ∨ file.length < stop then .error .badLayout
+          else if h.flags = Spec.flagUnsignedV20 then
+            if start ≠ pos0 ∨ file.length ≠ stop then .error .badLayout else finish []
+          else if h.flags = Spec.flagSigned then
+            if file.length < pos0 + 80 then .error .truncated
+            else
+              let eh := slice file pos0 16
+              if slice file (pos0 + 16) 32 ≠ hmac c .sha256 mac eh then .error .badSectionMac
+              else match readHdr (xorBytes eh (ksAt c dek h.nonce pos0)) with
+                | .error e => .error e
+                | .ok sh =>
+                  if sh.tag ≠ Spec.tagTag ∨ sh.address ≠ Spec.certSectionMark then .error .badTag
+                  else if sh.flags ≠ Spec.sectCleartext ||| Spec.sectLast ∨ h.offsetToCert ≠ pos0 + 80 then .error .badLayout
+                  else match certBlockLen file h.offsetToCert with
+                    | .error e => .error e
+                    | .ok certLen =>
+                      if sh.count * 16 ≠ certLen ∨ start ≠ h.offsetToCert + certLen then .error .badLayout
+                      else if file.length < start then .error .truncated
+                      else if slice file (pos0 + 48) 32 ≠ hmac c .sha256 mac (slice file h.offsetToCert certLen) then .error .badSectionMac
+                      else if file.length = stop then .error .badLayout    -- signature missing
+                      else finish (slice file h.offsetToCert certLen)
+          else .error .badLayout
 
 end Rom
 end SpsdkVerif.Sb2
